@@ -87,7 +87,7 @@ def kindName' : EKind → String
   | .expected => "Expected"
   | .invalidLiteral => "InvalidLiteral"
   | .custom => "Custom"
-  | .needLit _ => "NeedLit"
+  | .needLit _ _ _ => "NeedLit"
 
 /-- one literal verdict: (is f-string part, start, stop, error) -/
 abbrev LitEntry := Bool × Nat × Nat × Option (RotoV.Parse.EKind × RotoV.Lex.Span)
@@ -114,11 +114,26 @@ def parseLits (s : String) : Option (List LitEntry) :=
         | _, _, _, _, _ => none
       | _ => none) (some [])
 
-/-- the literal oracle of one request: no entry = "need this verdict" -/
-def litOracle (tbl : List LitEntry) (f : Bool) (a b : Nat) : Option (RotoV.Parse.EKind × RotoV.Lex.Span) :=
-  match tbl.find? (fun e => e.1 == f && e.2.1 == a && e.2.2.1 == b) with
-  | some e => e.2.2.2
-  | none => some (.needLit f, (a, b))
+/-- the literal oracle of one request: no entry = "need this verdict". The table carries
+the ABSOLUTE location of a decoding error (what the real parser reports); the model wants
+the escaper's range RELATIVE to the text it was given (content of a string literal, piece
+`j` of an f-string text) and redoes the parser's arithmetic on it. -/
+def litOracle (src : List Char) (tbl : List LitEntry) (f : Bool) (s e : Nat) :
+    Option (RotoV.Parse.EKind × Nat × Nat × Nat) :=
+  match tbl.find? (fun x => x.1 == f && x.2.1 == s && x.2.2.1 == e) with
+  | none => some (.needLit f s e, 0, 0, 0)
+  | some x =>
+    match x.2.2.2 with
+    | none => none
+    | some (k, (a, b)) =>
+      if f then
+        let t := RotoV.Parse.textOf src (s, e)
+        let ps := RotoV.Parse.pieces t
+        -- the last piece that starts at or before the error
+        let j := ((List.range ps.length).filter fun i => s + (ps.getD i (0, 0)).1 ≤ a).getLast?.getD 0
+        let base := s + (RotoV.Parse.pieceOf t j).1
+        some (k, j, a - base, b - base)
+      else some (k, 0, a - (s + 1), b - (s + 1))
 
 open RotoV.Parse in
 partial def showSx : Sx → String
@@ -134,7 +149,7 @@ def showOut : Out → String
   | .tree t sp => "ok " ++ showSx t ++ " | " ++ showSpans sp
   | .error e sp =>
     match e.kind with
-    | .needLit f => s!"need {if f then "F" else "L"} {e.span.1} {e.span.2}"
+    | .needLit f a b => s!"need {if f then "F" else "L"} {a} {b}"
     | k =>
       let hint := match e.hint with | some h => s!"{h.1}:{h.2}" | none => "-"
       s!"err {kindName' k} {e.span.1} {e.span.2} {hint} | " ++ showSpans sp
@@ -211,7 +226,7 @@ def handle (args : List String) : String :=
     match decode hex, parseTable tbl, parseLits lits with
     | some src, some t, some l =>
       showOut (RotoV.Parse.parse
-        ⟨src, mkPreds t, litOracle l, RotoV.Gen.ParseFacts.almostKeywords.map String.toList⟩)
+        ⟨src, mkPreds t, litOracle src l, RotoV.Gen.ParseFacts.almostKeywords.map String.toList⟩)
     | none, _, _ => "bad-utf8"
     | _, _, _ => "bad-op"
   | ["crange", hex, a, b] =>
